@@ -2,8 +2,11 @@ package props
 
 import (
 	"bytes"
+	"fmt"
 	"io"
 	"net"
+	"runtime"
+	"sync"
 	"testing"
 	"time"
 
@@ -26,18 +29,27 @@ type C17Case struct {
 	Ops   []C17Op `json:"ops"`
 	Peer  []int   `json:"peer"`  // fragment sizes in which the peer's bytes arrive
 	Drain int     `json:"drain"` // buffer size used to drain the remaining peer bytes at the end
+	// EOFData: the connection returns its last fragment together with io.EOF (allowed by io.Reader; TLS does it)
+	EOFData bool `json:"eofdata,omitempty"`
+	// Duplex: the read operations run on a second goroutine while the first one writes (a transport is used full duplex)
+	Duplex bool `json:"duplex,omitempty"`
 }
 
 // memConn is an in-memory net.Conn: it records what is written and serves
 // scripted inbound fragments.
 type memConn struct {
-	got    []byte
-	in     [][]byte
-	closed bool
-	writes int
+	rmu, wmu sync.Mutex // a real connection may be read and written at the same time
+	got      []byte
+	in       [][]byte
+	closed   bool
+	writes   int
+	eofData  bool
+	slow     bool
 }
 
 func (m *memConn) Read(p []byte) (int, error) {
+	m.rmu.Lock()
+	defer m.rmu.Unlock()
 	if len(p) == 0 {
 		return 0, nil
 	}
@@ -50,13 +62,29 @@ func (m *memConn) Read(p []byte) (int, error) {
 	} else {
 		m.in[0] = m.in[0][n:]
 	}
+	if m.eofData && len(m.in) == 0 {
+		return n, io.EOF
+	}
 	return n, nil
 }
 func (m *memConn) Write(p []byte) (int, error) {
+	if m.slow {
+		runtime.Gosched() // a write takes a moment: gives a concurrent user of the wrapper the chance to interfere
+	}
+	m.wmu.Lock()
+	defer m.wmu.Unlock()
 	if m.closed {
 		return 0, net.ErrClosed
 	}
 	m.writes++
+	if m.slow {
+		// append in two steps with a pause, as a socket write copies into kernel buffers
+		h := len(p) / 2
+		m.got = append(m.got, p[:h]...)
+		runtime.Gosched()
+		m.got = append(m.got, p[h:]...)
+		return len(p), nil
+	}
 	m.got = append(m.got, p...)
 	return len(p), nil
 }
@@ -108,6 +136,8 @@ func genC17(t *rapid.T) C17Case {
 	}), 1, maxOps).Draw(t, "ops")
 	c.Peer = rapid.SliceOfN(rapid.IntRange(1, 70), 0, 12).Draw(t, "peer")
 	c.Drain = rapid.SampledFrom([]int{1, 3, 16, 64, 5000}).Draw(t, "drain")
+	c.EOFData = rapid.IntRange(0, 3).Draw(t, "eofdata") == 1
+	c.Duplex = rapid.IntRange(0, 5).Draw(t, "duplex") == 2
 	return c
 }
 
@@ -134,7 +164,14 @@ func runC17(c C17Case) (out core.Outcome) {
 		peer = append(peer, frag...)
 		conn.in = append(conn.in, frag)
 	}
+	conn.eofData = c.EOFData
+	if c.EOFData {
+		cls.Add("eof-with-data")
+	}
 	tr := transport.NewTransport(conn, c.RSize, c.WSize)
+	if c.Duplex {
+		return runC17Duplex(c, conn, tr, peer, variant, cls)
+	}
 	var written, read []byte
 	seq := 0
 	mk := func(n int) []byte {
@@ -258,6 +295,97 @@ func runC17(c C17Case) (out core.Outcome) {
 	if len(c.Peer) > 1 {
 		cls.Add("peer-fragmented")
 	}
+	return
+}
+
+// runC17Duplex: the write-side operations run on one goroutine, the reads on another, repeated;
+// each direction is still used by one goroutine only, which is how a transport is used by the channel.
+func runC17Duplex(c C17Case, conn *memConn, tr transport.Transport, peer []byte, variant string, cls *core.ClassSet) (out core.Outcome) {
+	cls.Add("duplex")
+	conn.slow = true
+	var written, read []byte
+	var werr, rerr string
+	var wg sync.WaitGroup
+	wg.Add(2)
+	go func() {
+		defer wg.Done()
+		seq := 0
+		mk := func(n int) []byte {
+			b := make([]byte, n)
+			for i := range b {
+				seq++
+				b[i] = byte(seq*31 + seq>>8)
+			}
+			return b
+		}
+		for round := 0; round < 20 && werr == ""; round++ {
+			for i, op := range c.Ops {
+				switch op.Op {
+				case "write":
+					p := mk(op.Sizes[0])
+					written = append(written, p...)
+					if n, err := tr.Write(p); err != nil || n != len(p) {
+						werr = fmt.Sprintf("round %d op %d: Write(%d) returned (%d, %v)", round, i, len(p), n, err)
+					}
+				case "writev":
+					var segs net.Buffers
+					total := 0
+					for _, n := range op.Sizes {
+						b := mk(n)
+						segs = append(segs, b)
+						written = append(written, b...)
+						total += n
+					}
+					if n, err := tr.Writev(segs); err != nil || n != int64(total) {
+						werr = fmt.Sprintf("round %d op %d: Writev returned (%d, %v)", round, i, n, err)
+					}
+				case "flush":
+					if err := tr.Flush(); err != nil {
+						werr = fmt.Sprintf("round %d op %d: Flush returned %v", round, i, err)
+					}
+				}
+				if werr != "" {
+					break
+				}
+			}
+		}
+		if werr == "" {
+			if err := tr.Flush(); err != nil {
+				werr = fmt.Sprintf("final Flush returned %v", err)
+			}
+		}
+	}()
+	go func() {
+		defer wg.Done()
+		for k := 0; k < len(peer)+50; k++ {
+			p := make([]byte, c.Drain)
+			n, err := tr.Read(p)
+			read = append(read, p[:n]...)
+			if err == io.EOF {
+				return
+			}
+			if err != nil {
+				rerr = err.Error()
+				return
+			}
+			runtime.Gosched()
+		}
+	}()
+	wg.Wait()
+	conn.wmu.Lock()
+	got := append([]byte{}, conn.got...)
+	conn.wmu.Unlock()
+	switch {
+	case werr != "":
+		out.Violation = core.Viol("C17/write-result:"+variant, "full-duplex use: %s", werr)
+	case rerr != "":
+		out.Violation = core.Viol("C17/read-error:"+variant, "full-duplex use: Read returned %s", rerr)
+	case !bytes.Equal(got, written):
+		out.Violation = core.Viol("C17/flush-incomplete:"+variant, "full-duplex use: after the final Flush the peer has %d bytes, %d were written (first difference at %d)", len(got), len(written), firstDiff(got, written))
+	case !bytes.Equal(read, peer):
+		out.Violation = core.Viol("C17/read-bytes-differ:"+variant, "full-duplex use: reads returned %d bytes, the peer sent %d (first difference at %d)", len(read), len(peer), firstDiff(read, peer))
+	}
+	out.NonTrivial = true
 	return
 }
 
